@@ -133,6 +133,11 @@ func (e *env) checkImage(im image, states []*Model, opLabel string) {
 		f2["problem"] = p.Clause
 		rc.Failf("restart-inconsistent", f2, "crash at %q during %q (%s): after restart %s: %s", im.label, opLabel, im.prim, p.Clause, p.Msg)
 	}
+	if g := e.ghost(st, c); g != "" {
+		f2 := copyFacts(facts)
+		f2["problem"] = "off-chain-hash-found"
+		rc.Failf("restart-inconsistent", f2, "crash at %q during %q (%s): after restart %s", im.label, opLabel, im.prim, g)
+	}
 	pre, post := states[im.sub], states[im.sub]
 	if im.sub+1 < len(states) {
 		post = states[im.sub+1]
@@ -189,6 +194,11 @@ func (e *env) checkImage(im image, states []*Model, opLabel string) {
 		rc.Failf("resume-torn-or-shifted", facts, "crash at %q during %q (%s): after restart and further appends the stores differ from recovered state + appended headers (block %d vs %d, filter %d vs %d)",
 			im.label, opLabel, im.prim, len(c2.Blocks)-1, len(m.Blocks)-1, len(c2.Filters)-1, len(m.Filters)-1)
 	}
+	if g := e.ghost(st, c2); g != "" {
+		f2 := copyFacts(facts)
+		f2["problem"] = "off-chain-hash-found"
+		rc.Failf("resume-torn-or-shifted", f2, "crash at %q during %q (%s): after restart and further appends %s", im.label, opLabel, im.prim, g)
+	}
 	// And a second restart must still agree.
 	st.Close()
 	st2, err := Open(im.dir, fault.NewDisk(), e.p)
@@ -200,6 +210,22 @@ func (e *env) checkImage(im image, states []*Model, opLabel string) {
 	if p != nil || !c3.Equal(m) {
 		rc.Failf("resume-torn-or-shifted", facts, "second restart after crash at %q during %q disagrees with resumed state", im.label, opLabel)
 	}
+}
+
+// ghost: the hash index must not know any header of this run that is not on
+// the chain the store reports by height (an interrupted append or rollback
+// leaves no entries behind).
+func (e *env) ghost(st *Stores, c *Contents) string {
+	for hash, b := range e.tree.ByHash {
+		if int(b.Height) < len(c.Blocks) && c.Blocks[b.Height].BlockHash() == hash {
+			continue
+		}
+		hash := hash
+		if h, err := st.Block.HeightFromHash(&hash); err == nil {
+			return fmt.Sprintf("the index maps %v (a header of this run that is not on the stored chain) to height %d", hash, h)
+		}
+	}
+	return ""
 }
 
 func copyFacts(f map[string]string) map[string]string {
